@@ -53,6 +53,15 @@ def cases(tier, seed):
     for src in ('torch', 'numpy'):
         for shape in ('none', 'tensor', 'operator'):
             cs.append({'gen': 'random', 'kind': 'gauss', 'N': [5], 'M': [3], 'dtype': 'f64', 'source': src, 'shape': shape, 'eps': 1e-10, 'rmax': 'none'})
+    # unfoldings of rank > 100 (a rank cap that is not the caller's would show) for every source / shape form; inputs of tiny overall norm
+    for src in ('torch', 'numpy'):
+        for shape in ('none', 'tensor'):
+            cs.append({'gen': 'random', 'kind': 'gauss', 'N': [110, 120] if shape == 'none' else [105, 2, 60], 'dtype': 'f64', 'source': src, 'shape': shape, 'eps': 1e-12, 'rmax': 'none'})
+        cs.append({'gen': 'random', 'kind': 'gauss', 'N': [12, 11], 'M': [10, 10], 'dtype': 'f64', 'source': src, 'shape': 'operator', 'eps': 1e-12, 'rmax': 'none'})
+    for i in range(24 if not T else 300):
+        d = rng.choice([2, 3, 3, 4])
+        cs.append({'gen': 'random', 'kind': ['gauss', 'lowrank', 'superdiag'][i % 3], 'N': [rng.choice((2, 3, 4, 5)) for _ in range(d)], 'dtype': ['f64', 'c128', 'f64'][i % 3], 'source': ['torch', 'numpy'][i % 2],
+                   'shape': ['none', 'tensor'][(i // 2) % 2], 'eps': 10 ** rng.uniform(-10, -1), 'rmax': 'none', 'scale': [1e-17, 1e-30, 1e20][i % 3]})
     # adaptive stress: breakpoints
     for i in range(200 if not T else 3000):
         d = rng.choice([2, 2, 3, 3, 4, 5])
@@ -119,6 +128,8 @@ def make_input(case, g):
         # the superdiagonal tensor lives on the modes larger than 1; singleton modes are inserted afterwards (the bonds next to them
         # see the same spectrum again, so every bond - also those adjacent to singleton modes - is driven to its truncation edge)
         A = gens.superdiag(core_modes, s, g, dtype=dn.up(dt), rotate=(kind not in ('superdiag_int',))).to(dt).reshape(modes)
+    if case.get('scale'):
+        A = A * case['scale']       # overall magnitude: the accuracy bound is relative, so it must hold at 1e-17 as at 1
     if case['shape'] == 'operator':
         # build the M+N array whose interleaved image is A: A has modes (m_k n_k)
         dd = len(N)
